@@ -981,6 +981,27 @@ def _bound_in(fn: ast.FunctionDef) -> set[str]:
         {n.id for n in ast.walk(fn) if isinstance(n, ast.Name) and isinstance(n.ctx, ast.Store)}
 
 
+# (conditional expressions, starred displays, zip / enumerate / reversed are spellings the rules read; they are not on the list)
+_NOVEL_NODES = (ast.NamedExpr, ast.Match, ast.ListComp, ast.SetComp, ast.DictComp, ast.GeneratorExp, ast.Lambda, ast.Yield, ast.YieldFrom)
+_NOVEL_CALLS = {"next", "any", "all", "divmod", "map", "filter", "iter", "partial", "functools.partial", "dict.fromkeys", "contextmanager"}
+_NOVEL_METHODS = {"to_bytes", "from_bytes", "fromkeys"}
+
+
+def _syntax_kinds(fn: ast.AST) -> set[str]:
+    """the kinds of construct in a function that the rule extractors treat specially: expression forms and helper calls"""
+    out: set[str] = set()
+    for n in ast.walk(fn):
+        if isinstance(n, _NOVEL_NODES):
+            out.add(type(n).__name__)
+        elif isinstance(n, ast.Call):
+            d = dotted(n.func) or ""
+            if d in _NOVEL_CALLS:
+                out.add(f"{d}()")
+            elif isinstance(n.func, ast.Attribute) and n.func.attr in _NOVEL_METHODS:
+                out.add(f".{n.func.attr}()")
+    return out
+
+
 def _specialise_equalities(fn: ast.FunctionDef) -> int:
     """if X == c: BODY   ->   BODY with the loads of X replaced by c, when X is a call-free name / attribute chain, c a str or int literal, and
     BODY stores to none of the names X is built from"""
@@ -1271,6 +1292,28 @@ def normalize_repo(repo: Repo) -> dict[str, object]:
                 used = used or any(cname in om.imports and om.imports[cname][0] == mi.name for om in repo.modules.values())
                 if not used and cname in mi.classes:
                     del mi.classes[cname]
+    # ---- which known functions now use syntax the confirmed function did not (comprehensions, walrus, match, conditional expressions,
+    # generator helpers such as next / any / zip ...): the rules' extractors were written against the confirmed idioms, so a pattern they do
+    # not find in such a function is "not decided", not "absent" (report.Ctx.check)
+    novel: dict[str, set[str]] = {}
+    for mi in repo.modules.values():
+        known = census.get(mi.name)
+        if known is None:
+            continue
+        for fn in list(mi.functions.values()) + [m for c in mi.classes.values() for m in c.methods.values()]:
+            src = known.get("source", {}).get(fn.qualname)
+            if src is None:
+                continue
+            try:
+                ref_kinds = _syntax_kinds(ast.parse(src).body[0])
+            except SyntaxError:
+                continue
+            extra = _syntax_kinds(fn.node) - ref_kinds
+            if extra:
+                novel[fn.qualname] = extra
+    repo.novel_syntax = novel  # type: ignore[attr-defined]
+    if novel:
+        report["novel_syntax"] = [f"{k}: {', '.join(sorted(v))}" for k, v in sorted(novel.items())]
     # ---- inside an arm guarded by `X == <literal>` the expression X is that literal (after helpers have been folded in: an arm that forwards
     # the tested value to a helper, `DataNode(keyword.value, ...)` under `keyword.value == "dw"`, reads `DataNode("dw", ...)`)
     for mi in repo.modules.values():
